@@ -1,7 +1,7 @@
 SPECIFICATION Spec
 CONSTANTS
   Repaired = TRUE
-  ShapeSet = {"none", "one", "two", "dflt", "anon", "hidden", "hiddendflt", "twodflt"}
+  ShapeSet = {"none", "one", "two", "dflt", "anon", "hidden", "hiddendflt", "twodflt", "deep"}
   QuxSet = {"none", "hidden"}
   FooArgSet = {"none", "three", "nodescdfl"}
   FooOptSet = {"none", "three"}
